@@ -12,7 +12,7 @@ sys.path.insert(0, os.path.join(ROOT, "vlib"))
 import driver
 
 DEFAULT = dict(Node="a,b,c", InitVoters="a,b,c", Value="x,y", MaxTerm="2", MaxLog="4", MaxTimer="5", MaxAE="2",
-               MaxClient="1", MaxCrash="0", MaxHalf="0", AsyncKinds="", MaxNet="0",
+               MaxClient="1", MaxCrash="0", MaxHalf="0", MaxSnap="0", SnapSize="1", AsyncKinds="", MaxNet="0",
                invariants="ElectionSafety,LogMatching,NoViolation,CommittedDurable", mode="bfs", timeout="600", depth="60", workers="8")
 
 
@@ -21,7 +21,9 @@ def proj(s):
     ents = lg["ents"]
     last = lg["base"] + len(ents)
     lastt = ents[-1]["t"] if ents else lg["bterm"]
-    return {"term": s["term"], "vote": s["vote"], "role": s["role"], "last": last, "lastt": lastt, "commit": s["commit"]}
+    pend = s.get("pend", [])
+    return {"term": s["term"], "vote": s["vote"], "role": s["role"], "last": last, "lastt": lastt, "commit": s["commit"],
+            "pend": len(pend) if not isinstance(pend, int) else pend, "base": lg["base"], "snap": s.get("snap", {}).get("idx", 0)}
 
 
 def main():
@@ -37,7 +39,7 @@ def main():
     setv = lambda v: "{" + ", ".join(x for x in v.split(",") if x) + "}"
     strset = lambda v: "{" + ", ".join('"%s"' % x for x in v.split(",") if x) + "}"
     cfg = "CONSTANTS\n  Node = %s\n  InitVoters = %s\n  Value = %s\n  Nil = Nil\n" % (setv(opt["Node"]), setv(opt["InitVoters"]), setv(opt["Value"]))
-    for k in ("MaxTerm", "MaxLog", "MaxTimer", "MaxAE", "MaxClient", "MaxCrash", "MaxHalf", "MaxNet"):
+    for k in ("MaxTerm", "MaxLog", "MaxTimer", "MaxAE", "MaxClient", "MaxCrash", "MaxHalf", "MaxNet", "MaxSnap", "SnapSize"):
         cfg += "  %s = %s\n" % (k, opt[k])
     cfg += "  AsyncKinds = %s\n  W = %s\n  Gen = TRUE\n" % (strset(opt["AsyncKinds"]), strset(w))
     cfg += "SPECIFICATION Spec\nINVARIANTS %s\nCHECK_DEADLOCK FALSE\n" % " ".join(opt["invariants"].split(","))
